@@ -715,6 +715,15 @@ class Interp(object):
             self.depth -= 1
 
     def builtin(self, name, a):
+        r = self._builtin(name, a)
+        if isinstance(r, str) and len(r) > 4000:
+            # e.g. json_stringify of a value that contains an earlier json_stringify of itself doubles with every round of escaping
+            raise Unmodelled("string longer than 4000 characters")
+        if isinstance(r, (list, MMap)) and len(r) > 2000:
+            raise Unmodelled("collection with more than 2000 entries")
+        return r
+
+    def _builtin(self, name, a):
         if any(x is ERROR for x in a) and name not in ("typeof", "is_error", "is_absent", "is_present"):
             raise Unmodelled("error argument to %s" % name)
         if name == "typeof":
